@@ -9,6 +9,15 @@ LEVEL_NOTE = ("Trusted base: clang 14 front end and CFG builder, the gsa-extract
               "Assumes the shipped configuration (GALOIS_USE_LONGJMP_ABORT, NDEBUG).")
 
 CHECKS = {
+    "C08": ("exhaustive evaluation, on every CFG path (incl. loop back edges) of every BulkSynchronous and barrier-OBIM "
+            "instantiation of the driver matrix, of: push targets the queue of round+1 and pop the queue of round; the "
+            "round flip is bracketed by two barrier waits; thread 0's flag update lies strictly between them and every "
+            "`some = true` is barrier-separated from its read; isEmpty read only after the second barrier; seed order; "
+            "barrier-OBIM never calls slowPop in pop, does not retarget in push, and agrees on the next level in empty() "
+            "(own state before the first wait, all remote reads between the waits over all threads with the comparator, "
+            "retarget after the second); the executor re-arms and waits before the next level. Monotone-operator "
+            "assumption and priority arithmetic are not decided.",
+            "barrier-interval discipline (BAR) + CFG ordering rules over clang AST facts", "4 C08"),
     "C03": ("exhaustive evaluation, on every CFG path of every DoAllStealingExec instantiation of the driver matrix, of on_each "
             "and of the thread pool, of: shared range and size only under work_mutex (lock-assuming helpers called with it "
             "held); getWork/stealWork hand out a range, move the shared bound and update the size exactly on the success "
